@@ -119,12 +119,12 @@ Proof.
     assert (Hdef : okr (bind (r_exp P ts) (fun r =>
               match snd r with
               | TAssign :: ts1 =>
-                match fst r with
-                | EName k => bind (r_exp P ts1) (fun r2 => Ok ((FKey, EStr k, fst r2, false), snd r2))
-                | _ => Err (snd r)
+                match field_named ts (fst r) with
+                | Some k => bind (r_exp P ts1) (fun r2 => Ok ((FKey, EStr k, fst r2, false), snd r2))
+                | None => Err (snd r)
                 end
               | ts1 => Ok ((FPos, ENil, fst r, false), ts1)
               end)) ts).
-    { call. destruct l as [|t l]; [leaf|]. destruct t; try leaf. destruct e; try leaf. auto_tot. }
+    { call. destruct l as [|t l]; [leaf|]. destruct t; try leaf. destruct (field_named ts e); [auto_tot|leaf]. }
     destruct ts as [|t ts']; [exact Hdef|]. destruct t; try exact Hdef. auto_tot.
 Qed.
